@@ -5,6 +5,7 @@ package lsm
 import (
 	sym "github.com/feichai0017/NoKV/internal/verifsym"
 	"github.com/feichai0017/NoKV/kv"
+	"github.com/feichai0017/NoKV/lsm/compact"
 	"github.com/feichai0017/NoKV/utils"
 )
 
@@ -155,3 +156,93 @@ func c01Run(engine string) {
 
 func VerifC01PlainKVSkiplist() { c01Run("skiplist") }
 func VerifC01PlainKVART()      { c01Run("art") }
+
+// ---- C01 with compaction steps ----
+//
+// As c01Run, with three levels and three more things that may happen after a
+// write: the flushed L0 tables move into the ingest buffer of the last level,
+// that ingest buffer is drained into the level's main tables, or it is merged in
+// place — each executed by the real levelManager.doCompact.
+func c01RunCompaction() {
+	sym.FreeRun()
+	verifLevels = 3
+	v := VerifOpenLSM("skiplist")
+	verifLevels = 2
+	const sentinel = ^uint64(0)
+	nsteps := 3
+	type wr struct {
+		val byte
+		del bool
+	}
+	last := map[byte]*wr{}
+	lastLevel := v.L.option.MaxLevelNum - 1
+	// known finding (see known_findings.txt): a table REWRITTEN by an ingest merge
+	// gets a fresh, higher file id although its data is old; a memtable that was
+	// created before the merge and reaches the ingest buffer afterwards has a
+	// lower id and newer data, and lookups rank tables by file id.
+	rewritten := map[byte]bool{} // keys held by an ingest-merge output
+	outranked := map[byte]bool{} // ... that were written again and moved into the buffer later
+	var unflushed []byte         // keys written since the last flush
+	var inL0 []byte              // keys of tables sitting in L0
+	var inIngest []byte          // keys of tables sitting in the ingest buffer
+	for i := 0; i < nsteps; i++ {
+		k := byte('a' + sym.Int("key", 0, 1))
+		w := &wr{val: sym.U8("payload"), del: sym.Int("delete", 0, 1) == 1}
+		e := kv.NewEntry(kv.InternalKey(kv.CFDefault, []byte{k}, sentinel), []byte{w.val})
+		if w.del {
+			e.Meta = kv.BitDelete
+			e.Value = nil
+		}
+		sym.Assert(v.L.Set(e) == nil, "write-accepted")
+		last[k] = w
+		unflushed = append(unflushed, k)
+		// nothing | flush | flush + L0 moves to the ingest buffer | ... + drain | ... + merge in place
+		then := sym.Int("then", 0, 4)
+		if then >= 1 {
+			v.L.Rotate()
+			v.FlushAll()
+			inL0 = append(inL0, unflushed...)
+			unflushed = nil
+		}
+		if then >= 2 {
+			v.VerifCompact(0, compact.IngestNone)
+			for _, x := range inL0 {
+				if rewritten[x] {
+					outranked[x] = true
+				}
+			}
+			inIngest = append(inIngest, inL0...)
+		}
+		if then == 3 {
+			v.VerifCompact(lastLevel, compact.IngestDrain)
+			rewritten = map[byte]bool{} // (what was outranked stays lost: the drain merged by file id)
+			inIngest = nil
+		}
+		if then == 4 {
+			v.VerifCompact(lastLevel, compact.IngestKeep)
+			for _, x := range inIngest {
+				rewritten[x] = true
+			}
+		}
+		if then >= 2 {
+			inL0 = nil
+		}
+	}
+	pk := byte('a' + sym.Int("probe_key", 0, 1))
+	sym.Finding("RewrittenTableOutranksYoungerTable", outranked[pk])
+	got, err := v.L.Get(kv.InternalKey(kv.CFDefault, []byte{pk}, sentinel))
+	want := last[pk]
+	if want == nil {
+		sym.Assert(err == utils.ErrKeyNotFound || got == nil || (got.Value == nil && got.Meta == 0), "get-returns-the-most-recent-write")
+	} else if want.del {
+		// a delete reads as a tombstone or, once compaction has dropped it together with
+		// everything it shadows, as not-found
+		sym.Assert(err == utils.ErrKeyNotFound || got == nil || got.Meta&kv.BitDelete != 0, "get-returns-the-most-recent-write")
+	} else {
+		sym.Assert(err == nil && got != nil && got.Meta&kv.BitDelete == 0 && len(got.Value) == 1 && got.Value[0] == want.val, "get-returns-the-most-recent-write")
+	}
+	v.Close()
+	sym.Reached("end")
+}
+
+func VerifC01PlainKVCompaction() { c01RunCompaction() }
